@@ -90,6 +90,20 @@ def strategy(tier: str):
     return _case()
 
 
+def enumerate_cases(tier: str, shard: int, nshards: int):
+    """The pathological families of C20 at two sizes (well-formedness must also hold at scale)."""
+    from .c20 import F as FAMILIES
+
+    idx = 0
+    for name in sorted(FAMILIES):
+        for nn in (40, 700) if tier == "quick" else (40, 700, 8000):
+            for preset in ("js-default", "commonmark"):
+                idx += 1
+                if idx % nshards != shard:
+                    continue
+                yield {"src": FAMILIES[name](nn), "cfg": C.simple(preset, html=False, enable=["table", "strikethrough"]), "family": name}
+
+
 def lex_output(out: str, xhtml: bool, res: Res, where: str, stats: dict) -> None:
     pos = 0
     n = len(out)
